@@ -222,6 +222,17 @@ def long_run_cases():
                     if k % 7 == 6:
                         st += [("sub", 0, "str", 1, 0)] * (win + 1) + [("ack", 0, "SUBACK", "old")] * (win + 1)     # one refused: window full
                 yield C.SessionCase("long-run/cycles", cfg, steps=st)
+            # 20 reconnects of a persistent session, each with an inbound QoS 2 exchange open across the loss:
+            # (a) released right after the resumption, (b) never released by the broker (stale entries pile up)
+            for finish_it in (True, False):
+                st = [("build", 0), ("setwin", 0, 4), ("connect", 0, False, 0, lvl), ("connack", 0, 0, False)]
+                for k in range(20):
+                    st += [("pub", 0, 1), ("ack", 0, "PUBACK", "old"), ("inpub", 0, 2), ("lose", 0, ("lost", "done")[k % 2]), ("build", 0), ("setwin", 0, 4),
+                           ("connect", 0, False, 0, lvl), ("connack", 0, 0, True)]
+                    if finish_it:
+                        st += [("inrel", 0, "known")]
+                st += [("pub", 0, 1), ("pub", 0, 2), ("pub", 0, 0), ("ack", 0, "PUBACK", "old"), ("ack", 0, "PUBREC", "old"), ("ack", 0, "PUBCOMP", "old")]
+                yield C.SessionCase("long-run/inbound-across-reconnects", cfg, steps=st)
             # 60 keepalive periods, each PINGREQ answered half way, with traffic now and then
             st = [("build", 0), ("connect", 0, True, 2, lvl), ("connack", 0, 0, False)]
             for k in range(60):
